@@ -1,2 +1,1147 @@
-// Package c11 is the check for property C11 (see DESIGN.md section 3).
+// Package c11 is the check for property C11 (see DESIGN.md section 3): an image faithfully stands in for
+// its sources, in every encoding.
+//
+// Seam: the real `buf` root command (build, export, lint, breaking) run on scratch directories, with the
+// working directory a user would have (the workspace directory), see cli.go. Everything that comes back
+// is decoded with protobuf-go only and compared against small reference models written here (oracle.go):
+// the documented effect of the output flags, the hand-declared metadata of each workspace, the import
+// graph read from the source text and the targeting rule of --path/--exclude-path.
 package c11
+
+import (
+	"context"
+	"encoding/json"
+	"fmt"
+	"os"
+	"path/filepath"
+	"sort"
+	"strings"
+	"sync"
+	"time"
+
+	imagev1 "github.com/bufbuild/buf/private/gen/proto/go/buf/alpha/image/v1"
+	"github.com/bufbuild/bufverif/internal/bufx"
+	"github.com/bufbuild/bufverif/internal/enum"
+	"github.com/bufbuild/bufverif/internal/evid"
+	"github.com/bufbuild/protocompile"
+	"github.com/bufbuild/protocompile/protoutil"
+	"google.golang.org/protobuf/encoding/protowire"
+	"google.golang.org/protobuf/proto"
+	"google.golang.org/protobuf/types/descriptorpb"
+)
+
+func init() {
+	evid.Register(&evid.Check{ID: "C11", Level: "exploration", Run: run,
+		QuickBudget: 150 * time.Second, ThoroughBudget: 18 * time.Minute})
+}
+
+// caseInfo is what gets written to a replay / sample.
+type caseInfo struct {
+	Part      string            `json:"part"`
+	Workspace string            `json:"workspace"`
+	Cwd       string            `json:"cwd_relative_to_scratch,omitempty"`
+	Commands  [][]string        `json:"commands,omitempty"`
+	Paths     []string          `json:"paths,omitempty"`
+	Excludes  []string          `json:"exclude_paths,omitempty"`
+	Detail    string            `json:"detail,omitempty"`
+	Stderr    string            `json:"stderr,omitempty"`
+	Files     map[string]string `json:"workspace_files,omitempty"`
+}
+
+// wsState is a materialised workspace.
+type wsState struct {
+	def    *wsDef
+	dir    string // scratch/<name>
+	src    string // scratch/<name>/src : the working directory of every command
+	model  *refModel
+	back   map[string]string // image path -> workspace-relative path
+	oRaw   []byte
+	o      *imagev1.Image // decoded with res
+	res    resolver
+	v0OK   bool
+	cands  []string
+	broken bool
+}
+
+// srcPath maps an image-namespace path to the workspace-relative path a user would pass to a source input.
+func (s *wsState) srcPath(p string) string {
+	if wp, ok := s.back[p]; ok {
+		return wp
+	}
+	// a directory: take any file below it
+	for ip, wp := range s.back {
+		if strings.HasPrefix(ip, p+"/") {
+			return strings.TrimSuffix(wp, strings.TrimPrefix(ip, p))
+		}
+	}
+	return p
+}
+
+type pending struct {
+	group string
+	rank  int
+	label string
+	flags *flagSet
+	what  string
+	c     caseInfo
+}
+
+type runner struct {
+	r       *evid.Run
+	ctx     context.Context
+	pool    *cliPool
+	scratch string
+
+	mu       sync.Mutex
+	pendings []pending
+	counts   map[string]int
+}
+
+func (rn *runner) count(key string, n int) {
+	rn.mu.Lock()
+	rn.counts[key] += n
+	rn.mu.Unlock()
+}
+
+// fail records a violation candidate; the signature is fixed at the end of the run (see flush).
+func (rn *runner) fail(group string, rank int, label string, flags *flagSet, what string, c caseInfo) {
+	rn.mu.Lock()
+	rn.pendings = append(rn.pendings, pending{group, rank, label, flags, what, c})
+	rn.mu.Unlock()
+}
+
+// flush turns the recorded failures into violations. All failures of one group (oracle + kind of
+// difference) share one signature: the group plus either the flags common to all failing cases or the
+// label of the structurally simplest failing case. This keeps one defect = one signature however many
+// cases it breaks.
+func (rn *runner) flush() {
+	groups := map[string][]pending{}
+	for _, p := range rn.pendings {
+		groups[p.group] = append(groups[p.group], p)
+	}
+	for _, g := range bufx.SortedKeys(groups) {
+		ps := groups[g]
+		sort.SliceStable(ps, func(i, j int) bool {
+			if ps[i].rank != ps[j].rank {
+				return ps[i].rank < ps[j].rank
+			}
+			if ps[i].label != ps[j].label {
+				return ps[i].label < ps[j].label
+			}
+			return ps[i].c.Workspace < ps[j].c.Workspace
+		})
+		label := ps[0].label
+		if ps[0].flags != nil {
+			common := flagSet{true, true, true}
+			for _, p := range ps {
+				common.ExcludeImports = common.ExcludeImports && p.flags.ExcludeImports
+				common.ExcludeSourceInfo = common.ExcludeSourceInfo && p.flags.ExcludeSourceInfo
+				common.AsFDS = common.AsFDS && p.flags.AsFDS
+			}
+			label = common.String()
+		}
+		sig := g
+		if label != "" {
+			sig += "/" + label
+		}
+		for _, p := range ps {
+			rn.r.Violate(sig, p.what, p.c)
+		}
+	}
+}
+
+func (rn *runner) cli(s *wsState, args ...string) bufx.CLIResult {
+	return rn.pool.run(s.src, args...)
+}
+
+func run(r *evid.Run) {
+	r.Rule("hand-written workspaces x {binpb,json,txtpb,yaml} x {none,gzip,zstd} x all subsets of {--exclude-imports," +
+		"--exclude-source-info,--as-file-descriptor-set} (write with `buf build . -o`, read back with `buf build <file> -o -#format=binpb`), " +
+		"all 16 format-to-format transcodings, the same flags applied on the image route, images with injected unknown fields, " +
+		"every packaging of the tree (dir, tar, tar.gz, tar.zst, zip, wrapped archives with strip_components/subdir, `buf export` output), " +
+		"and every selection (P,X) of --path/--exclude-path values with P,X subsets of {each directory, each file}, |P|<=2, |X|<=2, no p inside an x, " +
+		"for build, lint and breaking on the directory and on the image built from it. A case is distinct/non-trivial when its " +
+		"(workspace, encoding, flags) or (workspace, selection with a non-empty proper effect) differs")
+	r.Assume("workspaces are hand-written (20 in the thorough tier, 9 in the quick tier), not generated: custom options (scalar, message-typed, Any-typed, extension-of-extension), proto2 extensions and groups, editions, services, comments, unused/public imports, missing syntax, v1/v2 buf.yaml, buf.work.yaml, named and unnamed modules")
+	r.Assume("unknown fields cannot be represented in json/txtpb/yaml; the injected-unknown-field images are round-tripped through binpb (none/gzip/zstd) only")
+	r.Assume("lint/breaking are compared on single-module workspaces whose module root is the workspace directory (an image has one lint/breaking config, a multi-module workspace one per module); `buf breaking --against` uses the image of the previous version on both routes because a directory --against combined with --path is rejected by buf itself")
+	r.Assume("`buf export` output has no buf.yaml: it is compared modulo module names, and when exported with imports, modulo is_import of the exported well-known types")
+	r.Assume("remote modules / commits in image metadata are out of scope here (offline); module names of local modules are covered")
+
+	ctx := context.Background()
+	scratch, err := os.MkdirTemp("", "verif-c11-")
+	if err != nil {
+		r.Incomplete("scratch: " + err.Error())
+		return
+	}
+	defer os.RemoveAll(scratch)
+	pool, err := newCLIPool(16)
+	if err != nil {
+		r.Incomplete("cannot start CLI workers: " + err.Error())
+		return
+	}
+	defer pool.close()
+	rn := &runner{r: r, ctx: ctx, pool: pool, scratch: scratch, counts: map[string]int{}}
+
+	defs := workspaces(r.Quick())
+	states := make([]*wsState, len(defs))
+	r.ParallelFor(len(defs), 0, func(i int) { states[i] = rn.setup(defs[i]) })
+	var items []func()
+	for _, s := range states {
+		if s == nil || s.broken {
+			continue
+		}
+		items = append(items, rn.encodingItems(s)...)
+		items = append(items, rn.packagingItems(s)...)
+		items = append(items, rn.selectionItems(s)...)
+		items = append(items, rn.apiItems(s)...)
+	}
+	r.Set("workspaces", len(defs))
+	r.Set("work_items", len(items))
+	r.ParallelFor(len(items), 0, func(i int) { items[i]() })
+	rn.flush()
+
+	rn.mu.Lock()
+	for _, k := range bufx.SortedKeys(rn.counts) {
+		r.Set(k, rn.counts[k])
+	}
+	counts := rn.counts
+	rn.mu.Unlock()
+	pool.mu.Lock()
+	r.Set("cli_calls", pool.calls)
+	if pool.died > 0 {
+		r.Set("cli_workers_died", pool.died)
+	}
+	pool.mu.Unlock()
+	// vacuity guards: every clause of the property must have been exercised
+	for _, k := range []string{
+		"enc_roundtrips_ok", "enc_compressed_magic_verified", "enc_with_custom_options", "enc_transcodings_ok", "enc_imageflag_cases",
+		"enc_injected_unknown_ok", "pack_equal", "sel_build_proper_subset", "sel_build_excluded_file_back_as_import",
+		"sel_build_empty_target_both_fail", "sel_lint_with_annotations", "sel_lint_annotations_narrowed", "sel_breaking_with_annotations",
+		"sel_breaking_annotations_narrowed", "api_strip_cases",
+	} {
+		if counts[k] == 0 && !r.Expired() {
+			r.Incomplete("clause never exercised: " + k)
+		}
+	}
+}
+
+// ---- setup ---------------------------------------------------------------------------------------------------
+
+func writeTree(dir string, files map[string]string) error {
+	for p, text := range files {
+		full := filepath.Join(dir, filepath.FromSlash(p))
+		if err := os.MkdirAll(filepath.Dir(full), 0o755); err != nil {
+			return err
+		}
+		if err := os.WriteFile(full, []byte(text), 0o644); err != nil {
+			return err
+		}
+	}
+	return nil
+}
+
+func (rn *runner) setup(def *wsDef) *wsState {
+	s := &wsState{def: def, dir: filepath.Join(rn.scratch, def.Name)}
+	s.src = filepath.Join(s.dir, "src")
+	bad := func(msg string) *wsState {
+		rn.r.Incomplete("workspace " + def.Name + ": " + msg)
+		s.broken = true
+		return s
+	}
+	for _, d := range []string{"out", "pk"} {
+		if err := os.MkdirAll(filepath.Join(s.dir, d), 0o755); err != nil {
+			return bad(err.Error())
+		}
+	}
+	if err := writeTree(s.src, def.Files); err != nil {
+		return bad(err.Error())
+	}
+	sources, back := def.imageSources()
+	s.back = back
+	model, err := newRefModel(sources)
+	if err != nil {
+		return bad(err.Error())
+	}
+	s.model = model
+	s.cands = model.candidates()
+
+	res := rn.cli(s, "build", ".", "-o", "../out/o.binpb")
+	rn.r.Eval(1)
+	if res.ExitCode != 0 {
+		return bad("does not build: " + res.Stderr)
+	}
+	s.oRaw, err = os.ReadFile(filepath.Join(s.dir, "out", "o.binpb"))
+	if err != nil {
+		return bad(err.Error())
+	}
+	raw, err := decodeRaw(s.oRaw)
+	if err != nil {
+		return bad("image does not decode: " + err.Error())
+	}
+	s.res, _, err = newResolver(raw)
+	if err != nil {
+		rn.fail("original/does-not-link", 0, "", nil, "the image built from the sources does not link with protodesc.NewFiles: "+err.Error(),
+			caseInfo{Part: "original", Workspace: def.Name, Files: def.Files})
+		s.broken = true
+		return s
+	}
+	s.o, err = decodeWith(s.oRaw, s.res)
+	if err != nil {
+		return bad("image does not decode with its own resolver: " + err.Error())
+	}
+	rn.checkOriginal(s, sources)
+
+	if def.V0 != nil {
+		if err := writeTree(filepath.Join(s.dir, "v0"), def.v0Files()); err != nil {
+			return bad(err.Error())
+		}
+		res := rn.pool.run(filepath.Join(s.dir, "v0"), "build", ".", "-o", "../out/v0.binpb")
+		rn.r.Eval(1)
+		if res.ExitCode != 0 {
+			return bad("v0 does not build: " + res.Stderr)
+		}
+		s.v0OK = true
+	}
+	if err := rn.makePackagings(s); err != nil {
+		return bad("packagings: " + err.Error())
+	}
+	return s
+}
+
+// checkOriginal compares the image built from the directory with what the workspace declares: file set =
+// locals + import closure, is_import exactly for the non-local files, module names, is_syntax_unspecified,
+// unused_dependency; and the descriptors (with source info) with an independent protocompile run.
+func (rn *runner) checkOriginal(s *wsState, sources map[string]string) {
+	ci := caseInfo{Part: "original", Workspace: s.def.Name, Commands: [][]string{{"build", ".", "-o", "../out/o.binpb"}}, Files: s.def.Files}
+	_, files := s.model.expect(nil, nil)
+	got := byName(s.o)
+	var wantNames []string
+	for p := range files {
+		wantNames = append(wantNames, p)
+	}
+	sort.Strings(wantNames)
+	if !sameStrings(wantNames, sortedCopy(names(s.o))) {
+		rn.fail("original/file-set", 0, "", nil, fmt.Sprintf("image files %v, expected %v", names(s.o), wantNames), ci)
+		return
+	}
+	if ok, why := dagOrdered(s.o); !ok {
+		rn.fail("original/file-order", 0, "", nil, why, ci)
+	}
+	for _, p := range wantNames {
+		f := got[p]
+		ext := f.GetBufExtension()
+		wantImport := files[p]
+		if ext.GetIsImport() != wantImport {
+			rn.fail("original/is_import", 0, "", nil, fmt.Sprintf("%s: is_import=%v, expected %v", p, ext.GetIsImport(), wantImport), ci)
+		}
+		wantModule := ""
+		meta := fileMeta{}
+		if wp, ok := s.back[p]; ok {
+			m, _ := s.def.moduleOf(wp)
+			wantModule = m.Name
+			meta = s.def.Meta[p]
+		}
+		gotModule := ""
+		if n := ext.GetModuleInfo().GetName(); n != nil {
+			gotModule = n.GetRemote() + "/" + n.GetOwner() + "/" + n.GetRepository()
+		}
+		if gotModule != wantModule || ext.GetModuleInfo().GetCommit() != "" {
+			rn.fail("original/module_info", 0, "", nil, fmt.Sprintf("%s: module %q commit %q, expected module %q and no commit", p, gotModule, ext.GetModuleInfo().GetCommit(), wantModule), ci)
+		}
+		if !wantImport {
+			if ext.GetIsSyntaxUnspecified() != meta.SyntaxUnspecified {
+				rn.fail("original/is_syntax_unspecified", 0, "", nil, fmt.Sprintf("%s: is_syntax_unspecified=%v, expected %v", p, ext.GetIsSyntaxUnspecified(), meta.SyntaxUnspecified), ci)
+			}
+			if fmt.Sprint(ext.GetUnusedDependency()) != fmt.Sprint(meta.Unused) {
+				rn.fail("original/unused_dependency", 0, "", nil, fmt.Sprintf("%s: unused_dependency=%v, expected %v", p, ext.GetUnusedDependency(), meta.Unused), ci)
+			}
+			if meta.SyntaxUnspecified {
+				rn.count("orig_syntax_unspecified_files", 1)
+			}
+			if len(meta.Unused) > 0 {
+				rn.count("orig_unused_dependency_files", 1)
+			}
+			if wantModule != "" {
+				rn.count("orig_named_module_files", 1)
+			}
+		}
+	}
+	// independent compile
+	comp := protocompile.Compiler{
+		Resolver:       protocompile.WithStandardImports(&protocompile.SourceResolver{Accessor: protocompile.SourceAccessorFromMap(sources)}),
+		SourceInfoMode: protocompile.SourceInfoExtraOptionLocations,
+	}
+	compiled, err := comp.Compile(rn.ctx, s.model.locals...)
+	if err != nil {
+		rn.r.Incomplete("workspace " + s.def.Name + ": independent protocompile run failed: " + err.Error())
+		return
+	}
+	for i, p := range s.model.locals {
+		fdp := protoutil.ProtoFromFileDescriptor(compiled[i])
+		b, err := proto.MarshalOptions{Deterministic: true}.Marshal(fdp)
+		if err != nil {
+			rn.r.Incomplete("marshal: " + err.Error())
+			return
+		}
+		want := &imagev1.ImageFile{}
+		if err := (proto.UnmarshalOptions{Resolver: s.res}).Unmarshal(b, want); err != nil {
+			rn.r.Incomplete("unmarshal: " + err.Error())
+			return
+		}
+		g := proto.Clone(got[p]).(*imagev1.ImageFile)
+		g.ClearBufExtension()
+		kinds, detail := diffImages(imageOf(want), imageOf(g), true)
+		for _, k := range kinds {
+			rn.fail("original/vs-protocompile/"+k, 0, "", nil, "image file differs from an independent protocompile compilation of the same source: "+detail, ci)
+		}
+		rn.count("orig_files_equal_to_independent_compile", 1)
+	}
+}
+
+func imageOf(files ...*imagev1.ImageFile) *imagev1.Image {
+	img := &imagev1.Image{}
+	img.SetFile(files)
+	return img
+}
+
+// ---- part A: encodings ---------------------------------------------------------------------------------------
+
+var formats = []string{"binpb", "json", "txtpb", "yaml"}
+var compressions = []string{"none", "gzip", "zstd"}
+
+func extOf(format, comp string) string {
+	e := "." + format
+	switch comp {
+	case "gzip":
+		e += ".gz"
+	case "zstd":
+		e += ".zst"
+	}
+	return e
+}
+
+func magicOK(data []byte, comp string) bool {
+	gz := len(data) > 2 && data[0] == 0x1f && data[1] == 0x8b
+	zs := len(data) > 4 && data[0] == 0x28 && data[1] == 0xb5 && data[2] == 0x2f && data[3] == 0xfd
+	switch comp {
+	case "gzip":
+		return gz
+	case "zstd":
+		return zs
+	}
+	return !gz && !zs
+}
+
+func hasCustomOptions(img *imagev1.Image) bool {
+	for _, f := range img.GetFile() {
+		if f.GetBufExtension().GetIsImport() {
+			continue
+		}
+		b, _ := proto.Marshal(f)
+		raw := &imagev1.ImageFile{}
+		_ = (proto.UnmarshalOptions{Resolver: emptyResolver{}}).Unmarshal(b, raw)
+		if optionsHaveUnknown(raw.ProtoReflect()) {
+			return true
+		}
+	}
+	return false
+}
+
+type encRef struct {
+	label  string // signature component (format family)
+	ref    string // the reference passed to -o and as input
+	file   string // file name below out/
+	format string
+	comp   string
+}
+
+func (rn *runner) encodingItems(s *wsState) []func() {
+	var items []func()
+	custom := hasCustomOptions(s.o)
+	n := 0
+	next := func() int { n++; return n }
+	addRT := func(e encRef, fl flagSet, style string) {
+		items = append(items, func() { rn.roundTrip(s, e, fl, style, custom) })
+	}
+	for _, f := range formats {
+		for _, c := range compressions {
+			for _, fl := range allFlagSets() {
+				file := fmt.Sprintf("rt%d.dat", next())
+				addRT(encRef{f, "../out/" + file + "#format=" + f + ",compression=" + c, file, f, c}, fl, "explicit")
+			}
+			// extension-implied format and compression
+			file := fmt.Sprintf("rt%d%s", next(), extOf(f, c))
+			addRT(encRef{f, "../out/" + file, file, f, c}, flagSet{}, "extension")
+		}
+		// explicit format, compression left to the default
+		file := fmt.Sprintf("rt%d.dat", next())
+		addRT(encRef{f, "../out/" + file + "#format=" + f, file, f, "none"}, flagSet{}, "explicit-format-only")
+	}
+	// deprecated spellings
+	for _, d := range []struct{ ref, format, comp string }{
+		{".bin", "binpb", "none"}, {".bin.gz", "binpb", "gzip"}, {".bin.zst", "binpb", "zstd"}, {".dat#format=bin", "binpb", "none"},
+		{".dat#format=bingz", "binpb", "gzip"}, {".dat#format=jsongz", "json", "gzip"},
+	} {
+		name := fmt.Sprintf("rt%d", next())
+		file := name + strings.SplitN(d.ref, "#", 2)[0]
+		addRT(encRef{d.format, "../out/" + name + d.ref, file, d.format, d.comp}, flagSet{}, "deprecated")
+	}
+	// transcodings
+	for _, f1 := range formats {
+		for _, f2 := range formats {
+			k := next()
+			items = append(items, func() { rn.transcode(s, f1, f2, k) })
+		}
+	}
+	// flags on the image route and directly on the source route
+	for _, fl := range allFlagSets() {
+		items = append(items, func() { rn.imageFlags(s, fl) })
+	}
+	// injected unknown fields
+	for _, c := range compressions {
+		items = append(items, func() { rn.injected(s, c) })
+	}
+	return items
+}
+
+func (rn *runner) roundTrip(s *wsState, e encRef, fl flagSet, style string, custom bool) {
+	rn.r.Eval(1)
+	wargs := append(append([]string{"build", "."}, fl.args()...), "-o", e.ref)
+	rargs := []string{"build", e.ref, "-o", "-#format=binpb"}
+	ci := caseInfo{Part: "roundtrip", Workspace: s.def.Name, Commands: [][]string{wargs, rargs}, Files: s.def.Files}
+	group := "roundtrip/" + e.label
+	w := rn.cli(s, wargs...)
+	if w.ExitCode != 0 {
+		ci.Stderr = w.Stderr
+		rn.fail(group+"/write-exit", 0, "", &fl, fmt.Sprintf("`buf %s` exits %d: %s", strings.Join(wargs, " "), w.ExitCode, clip(w.Stderr, 400)), ci)
+		return
+	}
+	data, err := os.ReadFile(filepath.Join(s.dir, "out", e.file))
+	if err != nil {
+		rn.fail(group+"/no-output-file", 0, "", &fl, "output file missing after a successful build: "+err.Error(), ci)
+		return
+	}
+	if !magicOK(data, e.comp) {
+		rn.fail(group+"/compression-"+e.comp+"-not-applied", 0, "", &fl, fmt.Sprintf("output of compression=%s starts with % x", e.comp, data[:min(6, len(data))]), ci)
+	} else if e.comp != "none" {
+		rn.count("enc_compressed_magic_verified", 1)
+	}
+	if e.format == "json" && e.comp == "none" && !json.Valid(data) {
+		rn.fail(group+"/not-json", 0, "", &fl, "format=json output is not valid JSON", ci)
+	}
+	rd := rn.cli(s, rargs...)
+	if rd.ExitCode != 0 {
+		ci.Stderr = rd.Stderr
+		rn.fail(group+"/read-exit", 0, "", &fl, fmt.Sprintf("buf cannot read back its own output: `buf %s` exits %d: %s", strings.Join(rargs, " "), rd.ExitCode, clip(rd.Stderr, 400)), ci)
+		return
+	}
+	got, err := decodeWith([]byte(rd.Stdout), s.res)
+	if err != nil {
+		rn.fail(group+"/read-undecodable", 0, "", &fl, "read-back binpb does not decode: "+err.Error(), ci)
+		return
+	}
+	want := applyFlags(s.o, fl)
+	kinds, detail := diffImages(want, got, true)
+	for _, k := range kinds {
+		ci.Detail = detail
+		rn.fail(group+"/"+k, 0, "", &fl, fmt.Sprintf("image written as %s (compression %s, %s) and read back differs from the original: %s", e.format, e.comp, fl, detail), ci)
+	}
+	if len(kinds) == 0 {
+		rn.count("enc_roundtrips_ok", 1)
+		rn.count("enc_roundtrips_ok_"+e.format, 1)
+		if custom {
+			rn.count("enc_with_custom_options", 1)
+		}
+		if style != "explicit" {
+			rn.count("enc_roundtrips_ok_style_"+style, 1)
+		}
+		rn.r.Distinct("rt|" + s.def.Name + "|" + e.format + "|" + e.comp + "|" + fl.String() + "|" + style)
+	}
+	_ = os.Remove(filepath.Join(s.dir, "out", e.file))
+	rn.r.SampleEvery(len(data), 211, func() any { return ci })
+}
+
+func (rn *runner) transcode(s *wsState, f1, f2 string, k int) {
+	rn.r.Eval(1)
+	t1 := fmt.Sprintf("../out/tc%d-1.%s", k, f1)
+	t2 := fmt.Sprintf("../out/tc%d-2.dat#format=%s", k, f2)
+	cmds := [][]string{
+		{"build", ".", "-o", t1},
+		{"build", t1, "-o", t2},
+		{"build", t2, "-o", "-#format=binpb"},
+	}
+	ci := caseInfo{Part: "transcode", Workspace: s.def.Name, Commands: cmds, Files: s.def.Files}
+	group := "transcode/" + f1 + "-to-" + f2
+	var last bufx.CLIResult
+	for i, c := range cmds {
+		last = rn.cli(s, c...)
+		if last.ExitCode != 0 {
+			ci.Stderr = last.Stderr
+			rn.fail(fmt.Sprintf("%s/exit-step%d", group, i+1), 0, "", nil, fmt.Sprintf("`buf %s` exits %d: %s", strings.Join(c, " "), last.ExitCode, clip(last.Stderr, 400)), ci)
+			return
+		}
+	}
+	got, err := decodeWith([]byte(last.Stdout), s.res)
+	if err != nil {
+		rn.fail(group+"/undecodable", 0, "", nil, err.Error(), ci)
+		return
+	}
+	kinds, detail := diffImages(s.o, got, true)
+	for _, kd := range kinds {
+		ci.Detail = detail
+		rn.fail(group+"/"+kd, 0, "", nil, fmt.Sprintf("sources -> %s -> %s -> binpb differs from the original image: %s", f1, f2, detail), ci)
+	}
+	if len(kinds) == 0 {
+		rn.count("enc_transcodings_ok", 1)
+		rn.r.Distinct("tc|" + s.def.Name + "|" + f1 + "|" + f2)
+	}
+	_ = os.Remove(filepath.Join(s.dir, "out", fmt.Sprintf("tc%d-1.%s", k, f1)))
+	_ = os.Remove(filepath.Join(s.dir, "out", fmt.Sprintf("tc%d-2.dat", k)))
+}
+
+// imageFlags: the three flags applied while reading the image, and applied on the sources with binpb on
+// stdout, must both give the reference model's image.
+func (rn *runner) imageFlags(s *wsState, fl flagSet) {
+	want := applyFlags(s.o, fl)
+	if fl.AsFDS {
+		// stdout is a FileDescriptorSet: no buf extension at all
+		for _, f := range want.GetFile() {
+			f.ClearBufExtension()
+		}
+	}
+	for _, route := range []struct{ name, input string }{{"image", "../out/o.binpb"}, {"source", "."}} {
+		rn.r.Eval(1)
+		args := append(append([]string{"build", route.input}, fl.args()...), "-o", "-#format=binpb")
+		ci := caseInfo{Part: "imageflags", Workspace: s.def.Name, Commands: [][]string{args}, Files: s.def.Files}
+		group := "flags-on-" + route.name
+		res := rn.cli(s, args...)
+		if res.ExitCode != 0 {
+			ci.Stderr = res.Stderr
+			rn.fail(group+"/exit", 0, "", &fl, fmt.Sprintf("`buf %s` exits %d: %s", strings.Join(args, " "), res.ExitCode, clip(res.Stderr, 400)), ci)
+			continue
+		}
+		got, err := decodeWith([]byte(res.Stdout), s.res)
+		if err != nil {
+			rn.fail(group+"/undecodable", 0, "", &fl, err.Error(), ci)
+			continue
+		}
+		kinds, detail := diffImages(want, got, true)
+		for _, k := range kinds {
+			ci.Detail = detail
+			rn.fail(group+"/"+k, 0, "", &fl, fmt.Sprintf("`buf %s` differs from the flag's documented effect on the original image: %s", strings.Join(args, " "), detail), ci)
+		}
+		if len(kinds) == 0 {
+			rn.count("enc_imageflag_cases", 1)
+			if fl.ExcludeImports && len(want.GetFile()) < len(s.o.GetFile()) {
+				rn.count("enc_exclude_imports_removed_files", 1)
+			}
+			rn.r.Distinct("fl|" + s.def.Name + "|" + route.name + "|" + fl.String())
+		}
+	}
+}
+
+func appendUnknown(m proto.Message, b []byte) {
+	r := m.ProtoReflect()
+	r.SetUnknown(append(append([]byte(nil), r.GetUnknown()...), b...))
+}
+
+// injected writes an image with unknown fields in a file, in file options and in message options and
+// lets buf read and re-write it as binpb.
+func (rn *runner) injected(s *wsState, comp string) {
+	rn.r.Eval(1)
+	img, err := decodeRaw(s.oRaw)
+	if err != nil {
+		rn.r.Incomplete("decode: " + err.Error())
+		return
+	}
+	injectedSomething := false
+	for _, f := range img.GetFile() {
+		if f.GetBufExtension().GetIsImport() {
+			continue
+		}
+		// unknown field in the file itself (number far away from descriptor.proto's and from 8042)
+		appendUnknown(f, protowire.AppendBytes(protowire.AppendTag(nil, 9999, protowire.BytesType), []byte("zz")))
+		if !f.HasOptions() {
+			f.SetOptions(&descriptorpb.FileOptions{})
+		}
+		appendUnknown(f.GetOptions(), protowire.AppendVarint(protowire.AppendTag(nil, 77002, protowire.VarintType), 7))
+		for _, m := range f.GetMessageType() {
+			if m.Options == nil {
+				m.Options = &descriptorpb.MessageOptions{}
+			}
+			appendUnknown(m.Options, protowire.AppendVarint(protowire.AppendTag(nil, 77001, protowire.VarintType), 5))
+			for _, fd := range m.GetField() {
+				if fd.Options == nil {
+					fd.Options = &descriptorpb.FieldOptions{}
+				}
+				appendUnknown(fd.Options, protowire.AppendFixed32(protowire.AppendTag(nil, 77003, protowire.Fixed32Type), 0xdeadbeef))
+			}
+		}
+		injectedSomething = true
+	}
+	if !injectedSomething {
+		return
+	}
+	data, err := proto.Marshal(img)
+	if err != nil {
+		rn.r.Incomplete("marshal: " + err.Error())
+		return
+	}
+	want, err := decodeWith(data, s.res)
+	if err != nil {
+		rn.r.Incomplete("decode: " + err.Error())
+		return
+	}
+	in := "../out/inj-" + comp + ".binpb"
+	out := "../out/inj-" + comp + "-out" + extOf("binpb", comp)
+	if err := os.WriteFile(filepath.Join(s.src, in), data, 0o644); err != nil {
+		rn.r.Incomplete(err.Error())
+		return
+	}
+	cmds := [][]string{{"build", in, "-o", out}, {"build", out, "-o", "-#format=binpb"}}
+	ci := caseInfo{Part: "injected-unknown-fields", Workspace: s.def.Name, Commands: cmds, Files: s.def.Files,
+		Detail: "input image = original image + unknown field 9999 in every local file, 77002 in its file options, 77001 in every top-level message's options, 77003 in every field's options"}
+	var last bufx.CLIResult
+	for i, c := range cmds {
+		last = rn.cli(s, c...)
+		if last.ExitCode != 0 {
+			ci.Stderr = last.Stderr
+			rn.fail(fmt.Sprintf("inject/exit-step%d", i+1), 0, comp, nil, fmt.Sprintf("`buf %s` exits %d: %s", strings.Join(c, " "), last.ExitCode, clip(last.Stderr, 400)), ci)
+			return
+		}
+	}
+	got, err := decodeWith([]byte(last.Stdout), s.res)
+	if err != nil {
+		rn.fail("inject/undecodable", 0, "", nil, err.Error(), ci)
+		return
+	}
+	kinds, detail := diffImages(want, got, true)
+	for _, k := range kinds {
+		rn.fail("inject/"+k, 0, "", nil, "image with unknown fields read and re-written as binpb differs: "+detail, ci)
+	}
+	if len(kinds) == 0 {
+		rn.count("enc_injected_unknown_ok", 1)
+		rn.r.Distinct("inj|" + s.def.Name + "|" + comp)
+	}
+}
+
+// ---- part C: selections ------------------------------------------------------------------------------------------
+
+type selection struct {
+	P, X []string
+	same bool // some p equals some x
+}
+
+func (s *wsState) selections(maxP, maxX int) []selection {
+	n := len(s.cands)
+	pick := func(idx []int) []string {
+		out := make([]string, len(idx))
+		for i, j := range idx {
+			out[i] = s.cands[j]
+		}
+		return out
+	}
+	var out []selection
+	for _, pi := range enum.Subsets(n, 0, maxP) {
+		for _, xi := range enum.Subsets(n, 0, maxX) {
+			sel := selection{P: pick(pi), X: pick(xi)}
+			inside := false
+			for _, p := range sel.P {
+				for _, x := range sel.X {
+					if p == x {
+						sel.same = true
+					} else if containsPath(x, p) {
+						inside = true
+					}
+				}
+			}
+			if inside {
+				continue
+			}
+			out = append(out, sel)
+		}
+	}
+	return out
+}
+
+func (s *wsState) isDir(p string) bool { _, ok := s.back[p]; return !ok }
+
+// shape is the structural role of a selection: kind of each --path (d/f), kind of each --exclude-path
+// with '<' when it lies inside some --path and '=' when it equals one.
+func (s *wsState) shape(sel selection) string {
+	k := func(p string) string {
+		if s.isDir(p) {
+			return "d"
+		}
+		return "f"
+	}
+	var ps, xs []string
+	for _, p := range sel.P {
+		ps = append(ps, k(p))
+	}
+	for _, x := range sel.X {
+		t := k(x)
+		for _, p := range sel.P {
+			if p == x {
+				t += "="
+			} else if containsPath(p, x) {
+				t += "<"
+			}
+		}
+		xs = append(xs, t)
+	}
+	sort.Strings(ps)
+	sort.Strings(xs)
+	return "P[" + strings.Join(ps, ",") + "]X[" + strings.Join(xs, ",") + "]"
+}
+
+func selArgs(paths, excludes []string) []string {
+	var a []string
+	for _, p := range paths {
+		a = append(a, "--path", p)
+	}
+	for _, x := range excludes {
+		a = append(a, "--exclude-path", x)
+	}
+	return a
+}
+
+func (s *wsState) srcSel(sel selection) (paths, excludes []string) {
+	for _, p := range sel.P {
+		paths = append(paths, s.srcPath(p))
+	}
+	for _, x := range sel.X {
+		excludes = append(excludes, s.srcPath(x))
+	}
+	return
+}
+
+var lintMenu = []string{"MINIMAL", "BASIC", "STANDARD", "COMMENTS", "UNARY_RPC"}
+var breakingMenu = []string{"FILE", "PACKAGE", "WIRE_JSON", "WIRE"}
+
+func (rn *runner) selectionItems(s *wsState) []func() {
+	var items []func()
+	quick := rn.r.Quick()
+	lb := s.v0OK && len(s.def.Modules) == 1 && s.def.Modules[0].Dir == "."
+	for i, sel := range s.selections(2, 2) {
+		small := len(sel.P) <= 1 && len(sel.X) <= 1
+		doLB := lb && (!quick || len(sel.X) <= 1)
+		items = append(items, func() {
+			rn.selectBuild(s, sel, i, small)
+			if doLB {
+				rn.selectCheck(s, sel, "lint", "")
+				rn.selectCheck(s, sel, "breaking", "")
+			}
+		})
+		if lb && small {
+			for _, c := range lintMenu {
+				items = append(items, func() { rn.selectCheck(s, sel, "lint", c) })
+			}
+			for _, c := range breakingMenu {
+				items = append(items, func() { rn.selectCheck(s, sel, "breaking", c) })
+			}
+		}
+	}
+	if lb {
+		items = append(items, func() { rn.breakingDirAgainstDir(s) })
+	}
+	return items
+}
+
+type buildOutcome struct {
+	exit int
+	img  *imagev1.Image
+	err  string
+	args []string
+}
+
+func (rn *runner) buildRoute(s *wsState, input string, paths, excludes []string) buildOutcome {
+	rn.r.Eval(1)
+	args := append(append([]string{"build", input}, selArgs(paths, excludes)...), "-o", "-#format=binpb")
+	res := rn.cli(s, args...)
+	out := buildOutcome{exit: res.ExitCode, err: res.Stderr, args: args}
+	if res.ExitCode == 0 {
+		img, err := decodeWith([]byte(res.Stdout), s.res)
+		if err != nil {
+			out.exit, out.err = -1, "undecodable output: "+err.Error()
+		}
+		out.img = img
+	}
+	return out
+}
+
+func (rn *runner) selectBuild(s *wsState, sel selection, idx int, small bool) {
+	sp, sx := s.srcSel(sel)
+	shape := s.shape(sel)
+	rank := len(sel.P) + len(sel.X)
+	routes := []struct {
+		name string
+		out  buildOutcome
+	}{
+		{"source", rn.buildRoute(s, ".", sp, sx)},
+		{"image", rn.buildRoute(s, "../out/o.binpb", sel.P, sel.X)},
+	}
+	if small {
+		// the other packagings and another image encoding take the same selections
+		routes = append(routes,
+			struct {
+				name string
+				out  buildOutcome
+			}{"tar", rn.buildRoute(s, "../pk/ws.tar", sp, sx)},
+			struct {
+				name string
+				out  buildOutcome
+			}{"zip", rn.buildRoute(s, "../pk/ws.zip", sp, sx)},
+			struct {
+				name string
+				out  buildOutcome
+			}{"image-yaml-gz", rn.buildRoute(s, "../out/o.yaml.gz", sel.P, sel.X)},
+		)
+	}
+	ci := caseInfo{Part: "select-build", Workspace: s.def.Name, Paths: sel.P, Excludes: sel.X, Files: s.def.Files}
+	for _, rt := range routes {
+		ci.Commands = append(ci.Commands, rt.out.args)
+	}
+	src := routes[0].out
+	if sel.same {
+		// the same path as --path and --exclude-path: the statement only asks for agreement
+		for _, rt := range routes[1:] {
+			if (rt.out.exit == 0) != (src.exit == 0) {
+				ci.Stderr = src.err + " | " + rt.out.err
+				rn.fail("select-build/same-path-in-both-flags/exit-"+rt.name, rank, shape, nil, fmt.Sprintf("source route exits %d, %s route exits %d", src.exit, rt.name, rt.out.exit), ci)
+			}
+		}
+		rn.count("sel_build_same_path_both_flags", 1)
+		return
+	}
+	targets, files := s.model.expect(sel.P, sel.X)
+	if len(targets) == 0 {
+		ok := true
+		for _, rt := range routes {
+			if rt.out.exit == 0 {
+				ok = false
+				ci.Detail = "the selection targets no file"
+				rn.fail("select-build/empty-target/"+rt.name+"-succeeds", rank, shape, nil,
+					fmt.Sprintf("selection targets no file; %s route exits 0 with files %v (source route exit %d)", rt.name, names(rt.out.img), src.exit), ci)
+			}
+		}
+		if ok {
+			rn.count("sel_build_empty_target_both_fail", 1)
+		}
+		return
+	}
+	want := expectedImage(s.o, files)
+	allOK := true
+	for _, rt := range routes {
+		if rt.out.exit != 0 {
+			allOK = false
+			ci.Stderr = rt.out.err
+			rn.fail("select-build/"+rt.name+"-route/exit", rank, shape, nil,
+				fmt.Sprintf("selection with targets %v: %s route exits %d: %s", targets, rt.name, rt.out.exit, clip(rt.out.err, 300)), ci)
+			continue
+		}
+		kinds, detail := diffImages(want, rt.out.img, false)
+		for _, k := range kinds {
+			allOK = false
+			ci.Detail = detail
+			rn.fail("select-build/"+rt.name+"-route-vs-model/"+k, rank, shape, nil,
+				fmt.Sprintf("%s route differs from the targeting rule (targets %v + import closure as imports): %s", rt.name, targets, detail), ci)
+		}
+		if ok, why := dagOrdered(rt.out.img); !ok {
+			allOK = false
+			rn.fail("select-build/"+rt.name+"-route/file-order", rank, shape, nil, why, ci)
+		}
+	}
+	// the two routes must also agree on the order of files
+	if src.exit == 0 {
+		for _, rt := range routes[1:] {
+			if rt.out.exit == 0 && sameStrings(sortedCopy(names(src.img)), sortedCopy(names(rt.out.img))) && !sameStrings(names(src.img), names(rt.out.img)) {
+				allOK = false
+				rn.fail("select-build/routes/file-order-"+rt.name, rank, shape, nil,
+					fmt.Sprintf("source route lists files %v, %s route %v", names(src.img), rt.name, names(rt.out.img)), ci)
+			}
+		}
+	}
+	if !allOK {
+		return
+	}
+	rn.count("sel_build_agree", 1)
+	if small {
+		rn.count("sel_build_agree_5_routes", 1)
+	}
+	nonTrivial := false
+	if len(targets) < len(s.model.locals) {
+		rn.count("sel_build_proper_subset", 1)
+		nonTrivial = true
+	}
+	for _, f := range s.model.locals {
+		isTarget := false
+		for _, t := range targets {
+			if t == f {
+				isTarget = true
+			}
+		}
+		if imp, in := files[f]; in && imp && !isTarget {
+			excluded := false
+			for _, x := range sel.X {
+				if containsPath(x, f) {
+					excluded = true
+				}
+			}
+			if excluded {
+				rn.count("sel_build_excluded_file_back_as_import", 1)
+			} else {
+				rn.count("sel_build_untargeted_local_as_import", 1)
+			}
+			break
+		}
+	}
+	for _, x := range sel.X {
+		for _, p := range sel.P {
+			if containsPath(p, x) {
+				rn.count("sel_build_exclude_inside_path", 1)
+			}
+		}
+	}
+	if nonTrivial {
+		rn.r.Distinct("sel|" + s.def.Name + "|" + strings.Join(sel.P, ",") + "|" + strings.Join(sel.X, ","))
+	}
+	rn.r.SampleEvery(idx, 499, func() any { return ci })
+}
+
+type annLine struct {
+	Path        string `json:"path"`
+	StartLine   int    `json:"start_line"`
+	StartColumn int    `json:"start_column"`
+	EndLine     int    `json:"end_line"`
+	EndColumn   int    `json:"end_column"`
+	Type        string `json:"type"`
+	Message     string `json:"message"`
+}
+
+func parseAnnotations(stdout string) ([]string, error) {
+	var out []string
+	for _, line := range strings.Split(strings.TrimSpace(stdout), "\n") {
+		if line == "" {
+			continue
+		}
+		var a annLine
+		if err := json.Unmarshal([]byte(line), &a); err != nil {
+			return nil, fmt.Errorf("not a JSON annotation: %q", clip(line, 200))
+		}
+		out = append(out, fmt.Sprintf("%s:%d:%d-%d:%d %s %s", a.Path, a.StartLine, a.StartColumn, a.EndLine, a.EndColumn, a.Type, a.Message))
+	}
+	sort.Strings(out)
+	return out, nil
+}
+
+func checkConfig(kind, rule string) string {
+	return fmt.Sprintf(`{"version":"v1","%s":{"use":["%s"]}}`, kind, rule)
+}
+
+// selectCheck runs lint or breaking on the directory and on the image with one selection.
+func (rn *runner) selectCheck(s *wsState, sel selection, kind, rule string) {
+	sp, sx := s.srcSel(sel)
+	mk := func(input string, paths, excludes []string) []string {
+		a := []string{kind, input}
+		if kind == "breaking" {
+			a = append(a, "--against", "../out/v0.binpb")
+		}
+		a = append(a, selArgs(paths, excludes)...)
+		a = append(a, "--error-format=json")
+		if rule != "" {
+			a = append(a, "--config", checkConfig(kind, rule))
+		}
+		return a
+	}
+	srcArgs, imgArgs := mk(".", sp, sx), mk("../out/o.binpb", sel.P, sel.X)
+	rn.r.Eval(2)
+	a, b := rn.cli(s, srcArgs...), rn.cli(s, imgArgs...)
+	ci := caseInfo{Part: "select-" + kind, Workspace: s.def.Name, Paths: sel.P, Excludes: sel.X, Commands: [][]string{srcArgs, imgArgs}, Files: s.def.Files}
+	if s.def.V0 != nil && kind == "breaking" {
+		ci.Detail = "previous version: " + fmt.Sprint(s.def.V0)
+	}
+	shape := s.shape(sel)
+	rank := len(sel.P) + len(sel.X)
+	cfg := "workspace-config"
+	if rule != "" {
+		cfg = "config-override"
+	}
+	group := "select-" + kind + "/" + cfg
+	if a.ExitCode != b.ExitCode {
+		// both failing for the same reason (empty selection, same path twice) with different codes would be a difference too
+		ci.Stderr = a.Stderr + " | " + b.Stderr
+		rn.fail(group+"/exit", rank, shape, nil, fmt.Sprintf("`buf %s` exits %d on the directory and %d on the image (stdout %q vs %q)", kind, a.ExitCode, b.ExitCode, clip(a.Stdout, 300), clip(b.Stdout, 300)), ci)
+		return
+	}
+	if a.ExitCode != 0 && a.ExitCode != 100 {
+		rn.count("sel_"+kind+"_both_fail", 1)
+		return
+	}
+	aa, err1 := parseAnnotations(a.Stdout)
+	ba, err2 := parseAnnotations(b.Stdout)
+	if err1 != nil || err2 != nil {
+		rn.fail(group+"/unparsable-output", rank, shape, nil, fmt.Sprint(err1, err2), ci)
+		return
+	}
+	if !sameStrings(aa, ba) {
+		rn.fail(group+"/annotations", rank, shape, nil, fmt.Sprintf("`buf %s` on the directory reports %v, on the image %v", kind, aa, ba), ci)
+		return
+	}
+	rn.count("sel_"+kind+"_agree", 1)
+	if len(aa) > 0 {
+		rn.count("sel_"+kind+"_with_annotations", 1)
+		rn.r.Distinct("chk|" + kind + "|" + rule + "|" + s.def.Name + "|" + strings.Join(sel.P, ",") + "|" + strings.Join(sel.X, ","))
+	}
+	// narrowed: fewer annotations than the unrestricted run of the same config would give
+	if len(sel.P)+len(sel.X) > 0 {
+		targets, _ := s.model.expect(sel.P, sel.X)
+		if len(targets) < len(s.model.locals) && len(aa) > 0 {
+			tset := map[string]bool{}
+			for _, t := range targets {
+				tset[t] = true
+			}
+			onlyTargets := true
+			for _, l := range aa {
+				if !tset[l[:strings.Index(l, ":")]] {
+					onlyTargets = false
+				}
+			}
+			if onlyTargets {
+				rn.count("sel_"+kind+"_annotations_narrowed", 1)
+			}
+		}
+	}
+}
+
+// breakingDirAgainstDir: without path flags a directory --against works; it must agree with the image routes.
+func (rn *runner) breakingDirAgainstDir(s *wsState) {
+	rn.r.Eval(3)
+	cmds := [][]string{
+		{"breaking", ".", "--against", "../v0", "--error-format=json"},
+		{"breaking", "../out/o.binpb", "--against", "../out/v0.binpb", "--error-format=json"},
+		{"breaking", "../out/o.binpb", "--against", "../v0", "--error-format=json"},
+	}
+	ci := caseInfo{Part: "breaking-dir-vs-image", Workspace: s.def.Name, Commands: cmds, Files: s.def.Files}
+	var first []string
+	firstExit := 0
+	for i, c := range cmds {
+		res := rn.cli(s, c...)
+		anns, err := parseAnnotations(res.Stdout)
+		if err != nil {
+			rn.fail("breaking-unselected/unparsable-output", 0, "", nil, err.Error(), ci)
+			return
+		}
+		if i == 0 {
+			first, firstExit = anns, res.ExitCode
+			continue
+		}
+		if res.ExitCode != firstExit || !sameStrings(first, anns) {
+			ci.Stderr = res.Stderr
+			rn.fail("breaking-unselected/differs", 0, "", nil, fmt.Sprintf("`buf %s`: exit %d %v; `buf %s`: exit %d %v", strings.Join(cmds[0], " "), firstExit, first, strings.Join(c, " "), res.ExitCode, anns), ci)
+			return
+		}
+	}
+	rn.count("breaking_dir_vs_image_agree", 1)
+}
